@@ -520,4 +520,33 @@ theorem notify_compose (e : Env) (c0 old new : List Block) (P : List Tx) (D : No
   rw [List.take_length] at hVall
   exact (settle_extend c0 new old (P ++ backOf e old) hndU hVall t).symm
 
+
+/-- inside `NotifyDom` the result of the one-shot move has distinct ids -/
+theorem notify_one_shot_nodup (e : Env) (c0 old new : List Block) (P : List Tx) (D : NotifyDom e c0 old new P) :
+    ((onChainMoved e (c0 ++ old) (c0 ++ new) P).map (·.id)).Nodup := by
+  have hPo : ∀ x ∈ old.flatMap (·.txs), hasId P x.id = false := by
+    intro x hx
+    rw [hasId_false_iff]
+    intro y hy hid
+    have := D.disc.nd
+    rw [List.map_append] at this
+    exact (List.nodup_append.1 this).2.2 _ (List.mem_map.2 ⟨y, hy, rfl⟩) _ (List.mem_map.2 ⟨x, hx, rfl⟩) hid
+  have hone : onChainMoved e (c0 ++ old) (c0 ++ new) P = settle (c0 ++ new) old (P ++ backOf e old) := by
+    unfold onChainMoved
+    simp only [left_fork c0 old new D.fork]
+    congr 2
+    unfold backOf
+    apply List.filter_congr
+    intro x hx
+    rw [hPo x hx]; simp
+  rw [hone]
+  exact settle_nodup _ _ _ (List.Nodup.sublist (((List.Sublist.refl P).append (backOf_sublist e old)).map _) D.disc.nd)
+
+/-- the chain component of the disconnect phase -/
+theorem discFold_fst (e : Env) (c0 old : List Block) (P : List Tx) (D : DiscAll e c0 old P) :
+    (discFold e c0 old (c0 ++ old, P)).1 = c0 := by
+  have := (discFold_settle e c0 old.reverse P (by rw [List.reverse_reverse]; exact D)).1
+  rw [List.reverse_reverse] at this
+  exact this
+
 end MW.Lemmas.PendHist.Compose
